@@ -30,6 +30,8 @@ pub enum XTime {
     E19,
     Max,
     Abs(f32),
+    /// exactly 2^64 seconds: the first f32 that no longer fits a `Duration`
+    TwoPow64,
 }
 
 #[derive(Clone, Debug, Serialize, Deserialize)]
@@ -49,6 +51,7 @@ fn xtime_strategy() -> impl Strategy<Value = XTime> {
         6 => (0u8..4, prop_oneof![3 => 0u32..4, 1 => prop::sample::select(vec![1u32 << 24, u32::MAX - 1, u32::MAX])], -2i8..=2).prop_map(|(which, k, ulps)| XTime::Boundary { which, k, ulps }),
         1 => Just(XTime::ManyCycles),
         1 => Just(XTime::E19),
+        1 => Just(XTime::TwoPow64),
         1 => Just(XTime::Max),
         3 => prop_oneof![0.0f32..100.0, log_uniform(-30.0, 38.0)].prop_map(XTime::Abs),
     ]
@@ -82,6 +85,7 @@ impl XTime {
             }
             XTime::ManyCycles => d + c * 16_777_216.0,
             XTime::E19 => 1.0e19,
+            XTime::TwoPow64 => 18446744073709551616.0,
             XTime::Max => f32::MAX as f64,
             XTime::Abs(x) => x as f64,
         };
@@ -202,7 +206,7 @@ pub fn c20_run_case(c: &C20Case, obs: &mut Obs) -> Result<u64, String> {
             mix(b);
         }
         obs.label_if(1, matches!(xt, XTime::Boundary { .. }));
-        obs.label_if(2, matches!(xt, XTime::ManyCycles | XTime::E19 | XTime::Max));
+        obs.label_if(2, matches!(xt, XTime::ManyCycles | XTime::E19 | XTime::Max | XTime::TwoPow64));
     }
     // animator: build, advance with the same alphabet, query
     let second = TlDesc { timing: Timing { cycle: 1.0, delay: 0.0, repeat: Rep::None, reverse: false }, default_ez: Ez::Linear, kfs: vec![KfDesc { pos: 1.0, a: Some(3.0), b: None, c: None, d: None, ez: None }] };
